@@ -48,9 +48,9 @@ func ruleM1(c *Ctx) {
 				return
 			}
 			var notFrozen, noIter bool
-			for _, pc := range pathConds(r.Block()) {
-				cond, neg := stripNot(pc.If.Cond)
-				taken := pc.Branch != neg // cond value on this path
+			for _, pf := range pathFacts(r.Block()) {
+				cond, neg := pf.Cond, false
+				taken := pf.Truth != neg // cond value on this path
 				// frozen test: load of recv.frozen or *recv.frozen
 				if ld, ok := cond.(*ssa.UnOp); ok && ld.Op == token.MUL {
 					tr := traceAddr(ld.X)
